@@ -50,6 +50,9 @@ var mgWants = []mgWant{
 	{"internal/trigger/gaussian/gaussian_rate.go", "Calculator", "For", "", "gauss_For"},
 	{"internal/raterun/runner.go", "schedules", "start", "", "schedules_start"},
 	{"internal/raterun/runner.go", "schedules", "currentFrequency", "", "schedules_currentFrequency"},
+	{"internal/workers/active_scenario.go", "ActiveScenario", "Run", "", "active_Run"},
+	{"internal/workers/active_scenario.go", "ActiveScenario", "Setup", "", "active_Setup"},
+	{"internal/workers/active_scenario.go", "ActiveScenario", "RecordDroppedIteration", "", "active_RecordDropped"},
 	{"pkg/f1/testing/t.go", "T", "Fail", "", "t_Fail"},
 	{"pkg/f1/testing/t.go", "T", "FailNow", "", "t_FailNow"},
 	{"pkg/f1/testing/t.go", "T", "Reset", "", "t_Reset"},
@@ -77,7 +80,7 @@ var builtin2 = map[string]bool{"Sub": true, "Add": true, "Before": true, "After"
 var mathFns = map[string]int{"math.Ceil": 1, "math.Floor": 1, "math.Round": 1, "math.Max": 2, "math.Min": 2}
 
 // functions whose result is not a function of the program state: oracles
-var oracle0 = map[string]bool{"rand.Float64": true, "time.Now": true}
+var oracle0 = map[string]bool{"rand.Float64": true, "time.Now": true, "xtime.NanoTime": true}
 
 type mgCtx struct {
 	fset    *token.FileSet
@@ -365,6 +368,22 @@ func (c *mgCtx) call(x *ast.CallExpr) string {
 	return c.unsupportedE(x)
 }
 
+// the oracle (a package-level niladic call such as xtime.NanoTime) evaluated inside e, "" if none
+func oracleIn(e ast.Expr) string {
+	found := ""
+	ast.Inspect(e, func(n ast.Node) bool {
+		if call, ok := n.(*ast.CallExpr); ok && len(call.Args) == 0 {
+			if sel, ok := call.Fun.(*ast.SelectorExpr); ok {
+				if id, ok := sel.X.(*ast.Ident); ok && oracle0[id.Name+"."+sel.Sel.Name] {
+					found = id.Name + "." + sel.Sel.Name
+				}
+			}
+		}
+		return true
+	})
+	return found
+}
+
 func seq(parts []string) string {
 	if len(parts) == 0 {
 		return ".skip"
@@ -400,6 +419,10 @@ func zeroOf(t ast.Expr) string {
 }
 
 func (c *mgCtx) callStmt(call *ast.CallExpr, deferred bool) string {
+	// func() { … }() — a block with its own deferred calls
+	if fl, isLit := call.Fun.(*ast.FuncLit); isLit && len(call.Args) == 0 && !deferred {
+		return "(.scope " + c.block(fl.Body.List) + ")"
+	}
 	sel, ok := call.Fun.(*ast.SelectorExpr)
 	mk := func(w string) string {
 		if deferred {
@@ -429,9 +452,21 @@ func (c *mgCtx) callStmt(call *ast.CallExpr, deferred bool) string {
 		if recv != "" && (effectMethods[m] || len(call.Args) == 0) {
 			return mk(recv + "." + m)
 		}
+		if deferred && recv != "" { // a deferred call: its arguments are evaluated now, its effect comes at the end of the scope
+			return mk(recv + "." + m)
+		}
 		if recv != "" && len(call.Args) == 1 && !deferred {
 			// a call with an argument whose result is dropped: an effect carrying its argument's evaluation
 			return "(.seq (.eval " + c.expr(call.Args[0]) + ") " + mk(recv+"."+m+"(…)") + ")"
+		}
+		if recv != "" && len(call.Args) > 1 && !deferred {
+			// several arguments: they are evaluated left to right into `$arg.<callee>.<i>`, then the call is an effect
+			var parts []string
+			for i, a := range call.Args {
+				parts = append(parts, "(.assign "+leanStr("$arg."+recv+"."+m+"."+strconv.Itoa(i))+" "+c.expr(a)+")")
+			}
+			parts = append(parts, mk(recv+"."+m+"(…)"))
+			return seq(parts)
 		}
 		return c.unsupportedS(call)
 	}
@@ -495,6 +530,9 @@ func (c *mgCtx) stmt(s ast.Stmt) string {
 				if _, aliased := c.alias[id.Name]; aliased {
 					return ".skip"
 				}
+			}
+			if o := oracleIn(x.Rhs[0]); o != "" { // a clock read: its place among the effects is part of the meaning
+				return "(.seq (.effect " + leanStr(o) + ") " + c.assignTo(x.Lhs[0], c.expr(x.Rhs[0])) + ")"
 			}
 			return c.assignTo(x.Lhs[0], c.expr(x.Rhs[0]))
 		case token.ADD_ASSIGN, token.SUB_ASSIGN, token.MUL_ASSIGN, token.QUO_ASSIGN:
